@@ -83,6 +83,8 @@ inductive Op
   | unload (id : Id)
   | update (id : Id) (l : Option String)              -- callback sets the label, or fails (none)
   | updateSecrets (id : Id) (pw : Pw) (l : Option String)
+  | getSeed (id : Id) (pw : Pw)      -- GetWalletSeed: read only
+  | view (id : Id) (pw : Pw)         -- ViewSecrets with a reading callback: read only
 deriving Repr
 
 /-- the password gate of NewAddresses / ScanAddresses(non-bip44) / UpdateSecrets -/
@@ -180,6 +182,22 @@ def step (s : St) : Op → St × Option E
         match l with
         | none => (s, some (.other "callback"))
         | some l => (commit s id { w with label := l }, none)
+  | .getSeed id pw =>
+    -- GetWalletSeed: encrypted wallets only; memory and disk are never written
+    match s.mem.get id with
+    | none => (s, some .notExist)
+    | some w =>
+      match w.enc with
+      | none => (s, some .notEncrypted)
+      | some p =>
+        if pw = 0 then (s, some .missingPassword)
+        else if pw ≠ p then (s, some .invalidPassword)
+        else (s, none)
+  | .view id pw =>
+    match s.mem.get id with
+    | none => (s, some .notExist)
+    | some w => (s, guard w pw)
+
 
 def run (ops : List Op) : St := ops.foldl (fun s op => (step s op).1) {}
 
